@@ -582,6 +582,13 @@ class Manager:
         # TODO: Refactor this method.
 
         if event.cancelled:
+            # Never handled, but a cause that counts this event among
+            # its effects must not wait for it forever.
+            cause = getattr(event, 'cause', None)
+            if cause:
+                delattr(event, 'cause')
+                delattr(event, 'effects')
+                self._effectDone(cause)
             return
 
         if event.complete:
@@ -689,6 +696,9 @@ class Manager:
             channels = getattr(event, 'success_channels', event.channels)
             self.fire(event.child('success', event, event.value.value), *channels)
 
+        self._effectDone(event)
+
+    def _effectDone(self, event):
         while True:
             # cause attributes indicates interest in completion event
             cause = getattr(event, 'cause', None)
